@@ -159,6 +159,15 @@ func (s *lockState) mustHolds(id string) bool {
 	return false
 }
 
+func (s *lockState) mustHoldsW(id string) bool {
+	for _, v := range s.must {
+		if v.ID == id && v.Mode == 'W' {
+			return true
+		}
+	}
+	return false
+}
+
 func (s *lockState) mayHolds(id string) bool {
 	for _, v := range s.held {
 		if v.ID == id {
